@@ -85,6 +85,20 @@ def build_data(spec):
         f_in, Z_in = f.copy(), Z.copy()
         mask = {int(i): True for i in np.where(masked)[0]}
     kw = {}
+    hc = spec.get("history_clear")
+    if hc:
+        # mask some points, read every view (whatever the data set caches is now filled), then clear the
+        # mask: the data set must present all of its points again
+        rs = np.random.RandomState(int(hc))
+        other = {int(i): True for i in rs.choice(n, size=max(1, n // 3), replace=False)}
+        ds = DataSet(f_in, Z_in, label=spec.get("label", "sim"), mask=other)
+        for m in (None, False, True):
+            ds.get_frequencies(masked=m)
+            ds.get_impedances(masked=m)
+        ds.get_nyquist_data()
+        ds.get_bode_data()
+        ds.set_mask({})
+        return ds
     hist = spec.get("history")
     if hist:
         # The same final data set reached through a history on one object (restart-free path):
